@@ -1,2 +1,3 @@
 pub mod prog;
 pub mod soup;
+pub mod decl;
